@@ -72,7 +72,7 @@ def walk_tree(top):
 def make_tree(top, entries, owner=None):
     """entries: list of (relpath, kind, data_or_target, mode, mtime)"""
     for rel, kind, data, mode, mtime in entries:
-        p = os.path.join(top, rel)
+        p = os.path.join(os.fsencode(top), rel) if isinstance(rel, bytes) else os.path.join(top, rel)
         os.makedirs(os.path.dirname(p), exist_ok=True)
         if kind == "d":
             os.makedirs(p, exist_ok=True)
